@@ -74,7 +74,9 @@ def run_dispatch(tier, seed, out, wd):
     out.extra["dispatch_cases"] = len(recs)
     out.extra["dispatch_runs_per_case"] = len(runs)
     k = max(1, len(recs) // 2)
-    out.samples += [{"dispatch_case": r["case"], "handler_names": r["names"], "observed": r["obs"][:3]}
+    out.samples += [{"dispatch_case": {kk: ([{q: c[q] for q in c if q != "chars"} for c in v]
+                                            if kk == "chain" else v) for kk, v in r["case"].items()},
+                     "handler_names": r["names"], "observed": r["obs"][:3]}
                     for r in recs[k:k + 1]]
     return runs
 
@@ -88,18 +90,24 @@ CACHED = {"cwalk", "cident", "ccomb", "ccoll"}
 def model_check_acceptor(tier, out):
     """C04_WalkModel: the acceptor's full state graph on all small shapes, acceptor == MDFS
     on the canonical walks and their single-fault variants; negative controls must fail."""
-    res = kit.run_tlc("C04_WalkModel", f"C04_WalkModel_{tier}", workers=4)
+    import concurrent.futures as cf
+    import time
+    t0 = time.time()
+    negs = ["bug_post_ignores_pending", "bug_visit_anywhere", "bug_end_anywhere"]
+    with cf.ThreadPoolExecutor(max_workers=4) as ex:
+        main = ex.submit(kit.run_tlc, "C04_WalkModel", f"C04_WalkModel_{tier}", workers=4)
+        nruns = [ex.submit(kit.run_tlc, "C04_WalkModel", f"C04_WalkModel_{n}", workers=2) for n in negs]
+        res = main.result()
+        nres = [f.result() for f in nruns]
     kit.require_clean(res, "C04_WalkModel (stack acceptor vs declarative walk contract)")
     out.add_tlc(res)
-    negs = ["bug_post_ignores_pending", "bug_visit_anywhere", "bug_end_anywhere"]
-    caught = 0
-    for n in negs:
-        r = kit.run_tlc("C04_WalkModel", f"C04_WalkModel_{n}", workers=2)
+    for n, r in zip(negs, nres):
         if not r.invariant_violated:
             raise kit.MachineryError(f"negative control {n}: TLC did not report a violated invariant")
-        caught += 1
+    kit.log(f"C04: acceptor model {res.distinct} states, {len(negs)} negative controls caught "
+            f"({time.time() - t0:.1f}s)")
     out.extra["acceptor_model_states"] = res.distinct
-    out.extra["negative_controls_caught"] = f"{caught}/{len(negs)}"
+    out.extra["negative_controls_caught"] = f"{len(negs)}/{len(negs)}"
 
 
 def gen_walk(tier, seed, out):
@@ -109,12 +117,28 @@ def gen_walk(tier, seed, out):
     trees = [p for p in gen.printed() if "tree" in p]
     if not trees:
         raise kit.MachineryError("C04_WGen printed no trees")
+    nrand = 0
+    if tier == "thorough":
+        # beyond the exhaustive bounds: random deeper trees, reproducible from the seed
+        rnd = kit.run_tlc("C04_WGen", "C04_WGen_random", workers=4, simulate="num=2000", depth=80,
+                          seed=seed)
+        kit.require_clean(rnd, "C04 random traversal generation (-simulate)")
+        out.add_tlc(rnd)
+        seen = {json.dumps(t["tree"], sort_keys=True) for t in trees}
+        for p in rnd.printed():
+            if "tree" in p:
+                key = json.dumps(p["tree"], sort_keys=True)
+                if key not in seen:
+                    seen.add(key)
+                    trees.append(p)
+                    nrand += 1
     cases = []
     for t in trees:
         for c in t["cfgs"]:
             cases.append({"id": len(cases), "tree": t["tree"], "cfg": c})
-    kit.log(f"C04: TLC generated {len(trees)} trees / {len(cases)} traversal runs "
+    kit.log(f"C04: TLC generated {len(trees)} trees ({nrand} random) / {len(cases)} traversal runs "
             f"({gen.distinct} states, {gen.wall:.1f}s)")
+    out.extra["walk_random_trees"] = nrand
     return trees, cases
 
 
@@ -128,7 +152,7 @@ def walk_sig(v, rec):
 
 
 def judge_walk(out, recs, wd):
-    shards = kit.write_shards(recs, wd / "trace", "c04w", min(6000, max(500, -(-len(recs) // 8))))
+    shards = kit.write_shards(recs, wd / "trace", "c04w", min(8000, max(500, -(-len(recs) // 4))))
     verdicts, st, tr = kit.judge_shards("C04_WJudge", "C04_WJudge", shards)
     out.states += st
     out.transitions += tr
@@ -154,13 +178,12 @@ def judge_walk(out, recs, wd):
 
 
 def run_walk(tier, seed, out, wd):
-    model_check_acceptor(tier, out)
     trees, cases = gen_walk(tier, seed, out)
     recs = kit.drive(DRV, "drive_walk", cases, None, chunk=400)
     out.evaluations += len(recs)
     how = judge_walk(out, recs, wd)
     for t in trees:
-        out.note_case(t["tree"], nontrivial=len(json.dumps(t["tree"])) > 60)
+        out.note_case(t["tree"], nontrivial=json.dumps(t["tree"]).count('"id"') > 1)
     out.extra["walk_trees"] = len(trees)
     out.extra["walk_runs"] = len(recs)
     out.extra["walk_outcomes"] = how
@@ -240,8 +263,10 @@ def replay(path, out):
     d = json.loads(open(path).read())
     det = d["detail"]
     if det["half"] == "dispatch":
+        for k in det["case"]["case"].get("chain", []):
+            k.setdefault("mix", False)
         recs = kit.drive(DRV, "drive_dispatch", [det["case"]], {"runs": det["runs"]})
         judge_dispatch(out, recs, wd, det["runs"])
     else:
-        recs = kit.drive(DRV, "drive_walk", [det["case"]], None)
+        recs = kit.drive(DRV, "drive_walk", [det["case"]], {"names": True})
         judge_walk(out, recs, wd)
